@@ -342,4 +342,50 @@ Proof.
   intros y Hy. apply Hall. apply sort_tokens_in. exact Hy.
 Qed.
 
+(* the same with ties: in the sorted list a token as long as x that starts later is deleted while x is the current one,
+   and none can stand before x *)
+Lemma outer_keeps_dominant_tie (x : tok) : wf_tok x -> forall fuel toks, (length toks <= fuel)%nat -> sorted_st toks -> In x toks ->
+  (forall y, In y toks -> y = x \/ (wf_tok y /\ (apart x y \/ tok_len y < tok_len x \/ (tok_len y = tok_len x /\ tstart x < tstart y)))) ->
+  In x (fo_outer fuel toks).
+Proof.
+  intros Hx. induction fuel as [|f IH]; intros toks Hl Hs Hin Hall.
+  - destruct toks; [destruct Hin | simpl in Hl; lia].
+  - cbn [fo_outer]. destruct toks as [|c [|n rest]]; [destruct Hin | exact Hin |].
+    pose proof (inner_length c (n :: rest) []) as Hlen.
+    assert (Hsub : forall y, In y (snd (fo_inner c [] (n :: rest))) -> In y (n :: rest)).
+    { intros y Hy. destruct (inner_mid_prefix c (n :: rest) []) as [q [E I]]. rewrite E in Hy. apply I. exact Hy. }
+    destruct (Hall c (or_introl eq_refl)) as [->|[Hwc Hdc]].
+    + assert (Hk : fst (fo_inner x [] (n :: rest)) = true).
+      { apply inner_current_kept. intros m Hm Hov.
+        destruct (Hall m (or_intror Hm)) as [->|[Hwm [Ham|[Hsm|Htm]]]].
+        - left. unfold tcontains. lia.
+        - exfalso. unfold overlap, apart, wf_tok in *. lia.
+        - right. lia.
+        - right. lia. }
+      destruct (fo_inner x [] (n :: rest)) as [keep rem]. simpl in Hk. subst keep. left; reflexivity.
+    + assert (Hxr : In x (n :: rest)).
+      { destruct Hin as [->|H]; [|exact H]. exfalso. destruct Hdc as [A|[A|A]]; [unfold apart, wf_tok in *; lia | lia | lia]. }
+      assert (Hcx : tstart c <= tstart x) by (destruct Hs as [Hc _]; apply Hc; exact Hxr).
+      assert (Hdc' : apart x c \/ tok_len c < tok_len x) by (destruct Hdc as [A|[A|A]]; [left; exact A | right; exact A | lia]).
+      assert (Hx' : In x (snd (fo_inner c [] (n :: rest)))).
+      { apply inner_keeps_dominant; [| |exact Hxr].
+        - destruct Hdc' as [A|A]; unfold tcontains, apart, wf_tok, tok_len in *; lia.
+        - intro Ho. destruct Hdc' as [A|A]; [exfalso; unfold overlap, apart, wf_tok in *; lia | exact A]. }
+      destruct (fo_inner c [] (n :: rest)) as [keep rem] eqn:Ei. cbn [snd] in *.
+      pose proof (inner_spec c (n :: rest) keep rem Hs Ei) as [I1 _].
+      assert (Hrec : In x (fo_outer f rem)).
+      { apply IH; [simpl in Hl, Hlen; lia | exact I1 | exact Hx' |]. intros y Hy. apply Hall. right. apply Hsub. exact Hy. }
+      destruct keep; [right; exact Hrec | exact Hrec].
+Qed.
+
+(* duplicates and ties allowed: every other token is a copy of x, apart from x, shorter than x, or as long and starting later *)
+Theorem fo_keeps_dominant_tie (x : tok) l : wf_tok x -> In x l ->
+  (forall y, In y l -> y = x \/ (wf_tok y /\ (apart x y \/ tok_len y < tok_len x \/ (tok_len y = tok_len x /\ tstart x < tstart y)))) ->
+  In x (filter_overlapping l).
+Proof.
+  intros Hx Hin Hall. unfold filter_overlapping.
+  apply outer_keeps_dominant_tie; [exact Hx | lia | apply sort_tokens_sorted | apply sort_tokens_in; exact Hin |].
+  intros y Hy. apply Hall. apply sort_tokens_in. exact Hy.
+Qed.
+
 End Rules.
